@@ -385,8 +385,8 @@ func GenBankParser(state *pars.State, result *pars.Result) error {
 
 	locus := string(result.Children[1].Token)
 	length := result.Children[2].Value.(int)
-	if length < 0 {
-		return pars.NewError("negative sequence length", state.Position())
+	if length < 0 || toOriginLength(length) < 0 {
+		return pars.NewError("sequence length out of range", state.Position())
 	}
 	molecule, err := gts.AsMolecule(string(result.Children[3].Token))
 	if err != nil {
